@@ -62,7 +62,9 @@ Skip == /\ (IsEvent("rt.register") \/ IsEvent("rt.close") \/ IsEvent("srv.abort"
 
 SrvRecv == /\ IsEvent("srv.recv")
            /\ LET ev == Trace[l] IN
-              /\ Report(l, IF C(ev.conn).srvOut = 0 THEN {} ELSE {"Inv_C06_OneOutstanding"})
+              /\ Report(l, (IF C(ev.conn).srvOut = 0 THEN {} ELSE {"Inv_C06_OneOutstanding"})
+                            \* what the server reads is the query of an exchange that has begun
+                            \cup (IF ev.ex \in DOMAIN exid /\ exid[ev.ex] = ev.qid THEN {} ELSE {"Inv_C06_StrayQuery"}))
               /\ cs' = With(cs, ev.conn, [C(ev.conn) EXCEPT !.srvOut = @ + 1])
            /\ UNCHANGED <<tokEx, exid>>
 
@@ -82,7 +84,12 @@ ExEnd == /\ IsEvent("ex.end")
                       ELSE {})
          /\ UNCHANGED <<cs, tokEx, exid>>
 
-Next == Seg \/ ExitIdle \/ GetIdle \/ Wrote \/ Read \/ EnterIdle \/ Release \/ Closed \/ Skip
+\* a payload that no two-octet length prefix can frame is refused
+OverEnd == /\ IsEvent("over.end")
+           /\ Report(l, IF Trace[l].refused /\ ~Trace[l].reply THEN {} ELSE {"Inv_C06_OversizeRefused"})
+           /\ UNCHANGED <<cs, tokEx, exid>>
+
+Next == OverEnd \/ Seg \/ ExitIdle \/ GetIdle \/ Wrote \/ Read \/ EnterIdle \/ Release \/ Closed \/ Skip
         \/ SrvRecv \/ SrvSend \/ ExBegin \/ ExEnd
 Spec == Init /\ [][Next]_tvars
 Post == Consumed
